@@ -508,6 +508,7 @@ fn run_producer(sh: &Shared, tid: usize, first: TxH, first_id: u32) {
     let cancel = scn.class == Class::AsyncCancel && rng.chance(2, 5)
       || (matches!(scn.class, Class::Mixed) && is_async && rng.chance(1, 6));
     let bn = rng.range(0, if scn.tiny { 4 } else { (2 * scn.cap as u64 + 3).min(40) }) as usize;
+    let other_open = slots.iter().enumerate().any(|(j, s)| j != si && s.h.is_some() && !s.closed);
     let slot = &mut slots[si];
     let id = slot.id;
     let out: Out = match op {
@@ -712,7 +713,10 @@ fn run_producer(sh: &Shared, tid: usize, first: TxH, first_id: u32) {
         // other for the disconnect protocol: it is made and dropped at once, and the end of the scenario still has
         // to be "every sender handle gone => receivers drain and see Disconnected".
         let of_closed = slot.closed;
-        if of_closed && !rng.chance(1, 2) {
+        // ... and only while this thread holds another handle that is still open: the channel then has a live sender
+        // for the whole life of the clone, so the clone can never bring a disconnected channel back to life (what a
+        // receiver that has already seen Disconnected should observe then is not specified either).
+        if of_closed && (!other_open || !rng.chance(1, 2)) {
           continue;
         }
         let new_id = sh.next_handle.fetch_add(1, Ordering::SeqCst);
